@@ -19,7 +19,7 @@ from sympy.physics.units import Quantity as SymQuantity
 
 from vp import coqrun, qx, unitgen
 from vp.unitgen import build
-from props.c07 import indep_scale_dim, erase, is_anyval, float_cert
+from props.c07 import indep_scale_dim, indep_deps, erase, is_anyval, float_cert
 
 STATIC = ["approx_numbers_spec", "approx_rejects", "approx_accepts_abs", "approx_accepts_rel", "approx_symmetric_without_abs",
     "approx_infinite_only_equal_to_itself", "approx_symmetric_extended", "assert_equal_infinite_rejects", "dim_gate_pass_iff", "approx_dimension_first", "assert_equal_dimension_first",
@@ -140,22 +140,22 @@ def parts(obj):
 
 def spec_assert_equal(lhs, rhs, rel, abs_, dimension, dflt, verdict):
     """True / False / None for assert_equal's verdict (None = passed, else error class) on python objects."""
+    from sympy.physics.units.systems.si import dimsys_SI  # pylint: disable=import-outside-toplevel
     try:
-        sl, dl = indep_scale_dim(lhs)
-        sr, dr = indep_scale_dim(rhs)
+        sl, dl = indep_deps(lhs)
+        sr, dr = indep_deps(rhs)
+        if dimension is not None and not _is_spq(rhs):
+            dr = {str(k.name): sympy.nsimplify(v) for k, v in dimsys_SI.get_dimensional_dependencies(dimension).items()}
+            dr.pop("angle", None)
     except Exception:  # pylint: disable=broad-except
         return None
-    if dimension is not None and not isinstance(rhs, SymQuantity):
-        dr = qx.dim_vec(dimension)
-    elif dimension is not None and isinstance(rhs, SymQuantity) and not _is_spq(rhs):
-        dr = qx.dim_vec(dimension)
     passed = verdict is None
     if (sl in (sympy.oo, -sympy.oo) or sr in (sympy.oo, -sympy.oo)) and sl is not sympy.nan and sr is not sympy.nan and sl != sr:
         return not passed                                   # infinite vs anything else: must fail, in either order
-    if is_anyval(sl) or is_anyval(sr) or dl[8] != 0 or dr[8] != 0 or sl.has(sympy.zoo) or sr.has(sympy.zoo):
+    if is_anyval(sl) or is_anyval(sr) or "any_dimension" in dl or "any_dimension" in dr or sl.has(sympy.zoo) or sr.has(sympy.zoo):
         return None
-    if erase(dl) != erase(dr):
-        return not passed
+    if dl != dr:
+        return not passed                                   # dependency dicts differ after angle erasure: must fail
     try:
         lre, lim = parts(lhs)
         rre, rim = parts(rhs)
@@ -272,12 +272,31 @@ def representable(fr_: Fraction) -> bool:
         return False
 
 
+EXTRA_BASES = ["information", "apples", "pears"]
+
+
+def dim_vec_x(d):
+    """qx.dim_vec, or -- when the dimension has a base outside Dim.v's nine slots -- the nine slots followed by one slot per
+    extra base (sympy's `information`, user-defined Dimension symbols).  Dim.v's functions (deqb, dimensionless, erase_angle)
+    are generic in the length of the vector; a 9-slot and a 12-slot vector are never equivalent, which is the right verdict
+    because the 12-slot form is only used when an extra component is non-zero."""
+    from sympy.physics.units.systems.si import dimsys_SI  # pylint: disable=import-outside-toplevel
+    try:
+        return qx.dim_vec(d)
+    except qx.Unsupported:
+        deps = {str(k.name): sympy.nsimplify(v) for k, v in dimsys_SI.get_dimensional_dependencies(d).items()}
+        names = qx.BASES + EXTRA_BASES
+        if any(k not in names for k in deps):
+            raise
+        return tuple(Fraction(int(deps[k].p), int(deps[k].q)) if k in deps else Fraction(0) for k in names)
+
+
 def aq_lit(q) -> str:
     """Model/Approx.v `aq FO` for a Quantity object: class of the scale factor, float(re), float(im), dimension."""
     s = sympy.sympify(q.scale_factor)
     vc = qx.val_class(s)
     re_, im_ = float(sympy.re(s)), float(sympy.im(s))
-    return (f"(@Build_aq FO {qx.val_lit(vc)} {f_lit(re_)} {f_lit(im_)} {qx.dim_lit(qx.dim_vec(q.dimension))})")
+    return (f"(@Build_aq FO {qx.val_lit(vc)} {f_lit(re_)} {f_lit(im_)} {qx.dim_lit(dim_vec_x(q.dimension))})")
 
 
 def operand_lit(obj):
@@ -312,8 +331,32 @@ def float_src(x: float) -> str:
     return f"Float({float(x)!r}, 17)" if math.isfinite(x) else ("oo" if x > 0 else "-oo") if not math.isnan(x) else "nan"
 
 
+EXTRA_Q = ["Quantity({v}*u.byte)", "Quantity({v8}*u.bit)", "Quantity({v}*u.bit/u.second)", "Quantity({v}*u.hertz)", "Quantity({v}*u.joule/u.bit)",
+    "Quantity({v}*u.joule)", "Quantity({v}, dimension=Dimension('apples'))", "Quantity({v}, dimension=Dimension('pears'))", "Quantity({v})",
+    "Quantity({v}*u.meter, dimension=u.length*Dimension('apples'))", "Quantity({v}*u.meter)", "Quantity({v8})", "Quantity({v}*u.byte*u.radian)",
+    "Quantity({v}, dimension=angle_type*Dimension('apples'))", "Quantity({v}*u.kibibyte/1024)", "Quantity({v8}*u.bit/u.second)"]
+
+
+def gen_extra_dimension_case(rng):
+    """dimensions with a base outside the seven SI ones (information, user-defined symbols): equal scale factors, so only the
+    dimension check can tell the operands apart"""
+    v = rng.randrange(1, 2**10) * 2.0**rng.randrange(-4, 5)
+    fmt = {"v": float_src(v), "v8": float_src(8 * v)}
+    lsrc, rsrc = rng.choice(EXTRA_Q).format(**fmt), rng.choice(EXTRA_Q).format(**fmt)
+    dim_src = None
+    r = rng.random()
+    if r < 0.15:
+        rsrc = rng.choice([float_src(8 * v), float_src(v)])                    # bare number, no dimension
+    elif r < 0.3:
+        rsrc = rng.choice([float_src(8 * v), float_src(v)])
+        dim_src = rng.choice(["u.information", "Dimension('apples')", "u.information/u.time", "u.length"])
+    return {"lsrc": lsrc, "rsrc": rsrc, "rel": rng.choice([None, None, 0.5]), "abs": None, "dim": dim_src, "kind": "extra-dimension"}
+
+
 def gen_quantity_case(rng, dflt):
     """returns dict(lsrc, rsrc, rel, abs, dim_src, kind)"""
+    if rng.random() < 0.1:
+        return gen_extra_dimension_case(rng)
     cls = rng.choice(sorted(BOUNDARY_UNITS))
     rel = rng.choice(RELS)
     rel_e = dflt if rel is None else rel
@@ -437,7 +480,7 @@ def stream_quantities(ctx, n, dflt):
             rl, ok2 = operand_lit(rhs)
             if not (ok1 and ok2):
                 continue
-            dl = "None" if dimension is None else f"(Some {qx.dim_lit(qx.dim_vec(dimension))})"
+            dl = "None" if dimension is None else f"(Some {qx.dim_lit(dim_vec_x(dimension))})"
         except qx.Unsupported:
             continue
         except Exception:  # pylint: disable=broad-except
@@ -485,7 +528,39 @@ def quantity_case_exact(c, dflt):
 # stream 3: vectors
 # ---------------------------------------------------------------------------------------------
 
+SYSTEMS = {"cartesian": (), "cylindrical": (1,), "spherical": (1, 2)}          # angle slots per coordinate-system type
+
+
+def gen_system_vector_case(rng, dflt):
+    """QuantityVectors in all three coordinate-system types, same and mixed pairs.  All components carry the SAME SI scale
+    factors, so only the component-wise dimensions (angle slots of the system type vs the vector's dimension) can tell a
+    cylindrical (r, theta, z) from a Cartesian (x, y, z)."""
+    cls = rng.choice(["length", "time", "velocity", "energy"])
+    unit = rng.choice(BOUNDARY_UNITS[cls])
+    scale = float(sympy.N(qx.pyvalue(build(unit)), 30))
+    sl, sr = rng.choice(sorted(SYSTEMS)), rng.choice(sorted(SYSTEMS))
+    rel = rng.choice([None, None, 0.5, 2.0**-10])
+    rel_e = dflt if rel is None else rel
+    comps = [rng.randrange(1, 2**10) * 2.0**rng.randrange(-5, 5) for _ in range(3)]
+    rcomps = list(comps)
+    if rng.random() < 0.3:
+        i = rng.randrange(3)
+        rcomps[i] = nudge(comps[i] * (1 + rng.choice([1, -1]) * rel_e), rng.randrange(-2, 3))
+
+    def vec(cs, system):
+        items = []
+        for i, x in enumerate(cs):
+            if i in SYSTEMS[system]:
+                items.append(rng.choice([float_src(x * scale), f"{float_src(x * scale)}*u.radian"]))      # an angle: same SI number
+            else:
+                items.append(f"{float_src(x)}*{unit}")
+        return f"QuantityVector([{', '.join(items)}], CoordinateSystem(CoordinateSystem.System.{system.upper()}))"
+    return {"lsrc": vec(comps, sl), "rsrc": vec(rcomps, sr), "rel": rel, "abs": None, "kind": f"vectors/{sl}-vs-{sr}"}
+
+
 def gen_vector_case(rng, dflt):
+    if rng.random() < 0.4:
+        return gen_system_vector_case(rng, dflt)
     cls = rng.choice(["length", "time", "energy", "velocity", "dimensionless"])
     unit = rng.choice(BOUNDARY_UNITS[cls])
     nl = rng.choice([1, 2, 3, 3, 3])
